@@ -78,6 +78,9 @@ type Heap struct {
 
 var epochCounter int
 
+// stableHeapNames: heap components of fields declared immutable or stable.
+var stableHeapNames = map[string]bool{}
+
 func (h *Heap) snapshot() *Heap {
 	n := &Heap{m: make(map[string]*Term, len(h.m)), epoch: h.epoch}
 	for k, v := range h.m {
@@ -97,6 +100,12 @@ func (h *Heap) get(name string, sort Sort) *Term {
 		return t
 	}
 	var t *Term
+	if stableHeapNames[name] {
+		// immutable / stable components are never havoced: one symbol for the entry value
+		t = Sym("H."+name, sort)
+		h.m[name] = t
+		return t
+	}
 	if h.poison[name] {
 		t = Fresh("H."+name, sort)
 	} else if h.epoch == 0 {
@@ -123,6 +132,12 @@ type State struct {
 	prevHeap  *Heap
 	prevNames map[string]nameBind
 	lockSnap  map[*Term]*Heap
+	stackObjs []stackObj
+}
+
+type stackObj struct {
+	ref   *Term
+	names []string
 }
 
 func (st *State) clone() *State {
@@ -144,6 +159,7 @@ func (st *State) clone() *State {
 		n.frames[i] = &nf
 	}
 	n.trace = append([]Event(nil), st.trace...)
+	n.stackObjs = append([]stackObj(nil), st.stackObjs...)
 	n.ghost = make(map[string]*Val, len(st.ghost))
 	for k, v := range st.ghost {
 		n.ghost[k] = v
@@ -199,6 +215,7 @@ type Engine struct {
 	both          bool
 	immutableHeap map[string]bool // heap array names of fields declared immutable
 	axiomsDone    bool
+	stableFields  []string
 }
 
 func (e *Engine) logAbs(format string, a ...interface{}) {
@@ -227,6 +244,7 @@ type fnCtx struct {
 	abstracted bool
 	maxPaths int
 	loopNames map[*ssa.BasicBlock]map[string]nameBind
+	bindOutside map[*TraceDecl]bool
 	curBlock  *ssa.BasicBlock // top-frame position being executed (for write positions)
 	curIdx    int
 	writePos  map[string][]wpos
@@ -456,7 +474,7 @@ func (x *fnCtx) addVC(st *State, fnShort, kind string, ord int, sub string, goal
 	if e.both {
 		isLockKind := false
 		switch kind {
-		case "guard", "lock", "unlock", "lockleak", "lockpost", "monitor":
+		case "guard", "lock", "unlock", "lockleak", "lockpost", "monitor", "chanclose":
 			isLockKind = true
 		}
 		if kind == "pre" && strings.Contains(sub, ".holds") {
@@ -706,23 +724,21 @@ func (x *fnCtx) havocAllHeap(st *State, why string) {
 			st.heap.m[k] = v
 		}
 	}
-	// fields declared immutable keep their value for objects that already exist
-	for name, srt := range heapSorts {
-		if !x.eng.immutableHeap[name] {
-			continue
+	// fields declared immutable / stable are not havoced: entries of objects that already exist
+	// keep their value, entries of unallocated references are unconstrained anyway (pool view)
+	for name, cur := range old.m {
+		if stableHeapNames[name] {
+			st.heap.m[name] = cur
 		}
-		idxS, _ := srt.ArrParts()
-		if idxS != SInt {
-			continue
+	}
+	// stack-allocated locals (no escape per go/ssa) are not reachable by the callee
+	for _, so := range st.stackObjs {
+		for _, nm := range so.names {
+			srt := heapSorts[nm]
+			before := old.get(nm, srt)
+			after := st.heap.get(nm, srt)
+			st.heap.m[nm] = Store(after, so.ref, Select(before, so.ref))
 		}
-		before := old.get(name, srt)
-		after := st.heap.get(name, srt)
-		if alloc == nil {
-			alloc = old.get("$alloc", ArrSort(SInt, SBool))
-			st.heap.m["$alloc"] = alloc
-		}
-		bk := BVar("r", SInt)
-		st.assume(Forall([]*Term{bk}, Implies(Select(alloc, bk), Eq(Select(after, bk), Select(before, bk))), Select(after, bk)))
 	}
 	x.writes["*"] = true
 }
@@ -735,7 +751,7 @@ func kindLayer(kind string) string {
 		return "overflow"
 	case "trace_ensures", "trace_panics":
 		return "trace"
-	case "guard", "lock", "unlock", "lockleak", "lockpost", "monitor":
+	case "guard", "lock", "unlock", "lockleak", "lockpost", "monitor", "chanclose":
 		return "lock"
 	}
 	return "contract"
